@@ -84,7 +84,7 @@ func hunt4Run(toks []string, shared bool, fill, stp byte) string {
 		}
 	}
 	hunted := map[string]bool{} // keys of the hunt list
-	var order []string       // hunted MACs in start order: the loops run concurrently, their frames are sorted by it
+	var order []string          // hunted MACs in start order: the loops run concurrently, their frames are sorted by it
 	rank := func(m string) int {
 		for i, x := range order {
 			if x == m {
